@@ -270,3 +270,18 @@ def ordering_rows(prog, A, fid):
             rows.append(["%s(%s)" % ("::".join(mir.strip_generics(ev[1]).split("::")[-2:]), ", ".join(guards.fmt_terms(a, limit=2) for a in (ev[2] or [])[:2])), sorted(guards.guard_set(b, S, ev[6]))])
     rows.sort(key=lambda r: (r[0], r[1]))
     return rows
+
+
+def bool_rows(prog, A, fid):
+    """one row for a predicate function (returns bool): the condition under which it returns true, as a formula over its tests
+    (flags that are set on several paths are expanded); the row's predicate list is the set of atoms of that formula"""
+    b = prog.bodies.get(fid)
+    if b is None or not b.locals or b.locals[0]["ty"] != "bool":
+        return []
+    S = A.summary(fid)
+    f = guards.value_formula(b, S, 0)
+    if f is None:
+        return []
+    atoms = sorted(guards.atoms_of(f))
+    guards.FORMULAS[(guards.fkey(b), tuple(atoms))] = f
+    return [["returns true", atoms]]
